@@ -1,9 +1,12 @@
 """C08 - client lifecycle."""
 FUNCTIONS = ['base_client.BaseClient._reset', 'client.Client._send_packet',
              'client.Client._trigger_event', 'client.Client.disconnect', 'client.Client.send',
-             'client.Client._receive_packet']
+             'client.Client._receive_packet',
+             'async_client.AsyncClient._reset', 'async_client.AsyncClient._send_packet',
+             'async_client.AsyncClient._trigger_event', 'async_client.AsyncClient.disconnect',
+             'async_client.AsyncClient.send', 'async_client.AsyncClient._receive_packet']
 
-LEVEL_TEXT = 'packet-level lifecycle functions of the threaded Client are verified: disconnect() always ends in state disconnected with the sid cleared, is a no-op on a client that is not connected, and on a connected client queues CLOSE then the sentinel and fires exactly one disconnect event with the given reason; send()/_send_packet() are no-ops unless connected; a CLOSE packet from the server disconnects; _reset gives the reusable state'
-LEVEL_NOTE = 'connect(), _connect_polling/_connect_websocket and the read / write loops (network glue over requests / websocket-client / aiohttp) are NOT under contract, nor is AsyncClient beyond _send_packet: the clauses about ConnectionError on refusal, adoption of the OPEN fields, task termination and wait() are not decided'
-NOT_DECIDED = ['connect() outcomes and exception classes', 'background task termination / wait()', 'AsyncClient', 'known findings KF-C08-disconnect-before-loops and KF-C08-double-disconnect-client']
+LEVEL_TEXT = 'packet-level lifecycle functions of both clients (Client and AsyncClient, one contract text) are verified: disconnect() always ends in state disconnected with the sid cleared, is a no-op on a client that is not connected, and on a connected client queues CLOSE then the sentinel and fires exactly one disconnect event with the given reason; send()/_send_packet() are no-ops unless connected; a CLOSE packet from the server disconnects; _reset gives the reusable state'
+LEVEL_NOTE = 'connect(), _connect_polling/_connect_websocket and the read / write loops (network glue over requests / websocket-client / aiohttp) are NOT under contract: the clauses about ConnectionError on refusal, adoption of the OPEN fields, task termination and wait() are not decided'
+NOT_DECIDED = ['connect() outcomes and exception classes', 'background task termination / wait()', 'known findings KF-C08-disconnect-before-loops(-async) and KF-C08-double-disconnect-(async)client']
 ASSUMPTIONS = [LEVEL_NOTE]
